@@ -280,7 +280,9 @@ func (ms *Modules) FindModuleByNamespace(ns string) (*Module, error) {
 		return m, nil
 	}
 	var found *Module
-	for _, m := range ms.Modules {
+	// In name order, so that the error about a namespace that several
+	// modules share names the same two of them every time.
+	for _, m := range sortedModules(ms.Modules) {
 		if m.Namespace.Name == ns {
 			switch {
 			case m == found:
